@@ -9,6 +9,7 @@ CONSTANTS
   MaxRuns = 2
   MaxTagOps = 2
   MaxTimes = 2
+  MaxIds = 9
   AllowStop = TRUE
   AllowSetFF = TRUE
   AllowSkipNoStart = FALSE
